@@ -24,8 +24,17 @@ type lim struct {
 func (l lim) String() string { return fmt.Sprintf("(%v,%v)", l.min, l.max) }
 
 func c07(ctx *Ctx) {
+	cases := c07Cases(ctx.Level)
+	runBehaviour(ctx, behaviour{Name: "arrays", Cases: cases, Devs: c07Devs,
+		DocFilter: func(sc *SCase, d *refmodel.Doc, tv refmodel.Verdict) bool {
+			return !strings.Contains(d.Class, "type:") && !strings.Contains(d.Class, "extra-key")
+		}})
+	ctx.Run.Assume("one level deviates from the base document at a time", "null inside an array of non-nullable elements is outside the statement")
+}
+
+func c07Cases(level int) []SCase {
 	lims := []lim{{nil, nil}, {1, nil}, {nil, 2}, {2, 2}}
-	if ctx.Level >= 1 {
+	if level >= 1 {
 		lims = append(lims, lim{1, 2}, lim{nil, 0}, lim{3, nil})
 	}
 	elems := []struct {
@@ -38,7 +47,7 @@ func c07(ctx *Ctx) {
 		{"nstr", J{"type": A{"string", "null"}}},
 	}
 	maxDepth := 2
-	if ctx.Level >= 1 {
+	if level >= 1 {
 		maxDepth = 3
 	}
 	var cases []SCase
@@ -91,9 +100,5 @@ func c07(ctx *Ctx) {
 	for d := 1; d <= maxDepth; d++ {
 		rec(d, nil)
 	}
-	runBehaviour(ctx, behaviour{Name: "arrays", Cases: cases, Devs: c07Devs,
-		DocFilter: func(sc *SCase, d *refmodel.Doc, tv refmodel.Verdict) bool {
-			return !strings.Contains(d.Class, "type:") && !strings.Contains(d.Class, "extra-key")
-		}})
-	ctx.Run.Assume("one level deviates from the base document at a time", "null inside an array of non-nullable elements is outside the statement")
+	return cases
 }
